@@ -37,7 +37,10 @@ TREE: Dict[str, str] = {
     "/": "d", "/srv": "d", "/srv/www": "d", "/srv/www/f": "f", "/srv/www/d": "d", "/srv/www/d/index.html": "f", "/srv/www/d/g": "f",
     "/srv/www/x.html": "f", "/srv/www/..n": "f", "/srv/www/index.html": "f", "/srv/www/e": "d", "/srv/www/e/h": "f",
     "/srv/wwwx": "d", "/srv/wwwx/s": "f", "/srv/s": "f", "/srv/www.html": "f", "/srv/x.html": "f",
+    "/srv/www/k": "s",  # an entry that is neither a regular file nor a directory (unix socket): never served
+    "/srv/void": "d", "/srv/www/up": "l:/srv/void",  # a symbolic link inside the directory to an EMPTY directory outside it
 }
+sympath.SYMLINKS.update({k: v[2:] for k, v in TREE.items() if v.startswith("l:")})
 
 META = {
     "functions": lambda: [SF.BaseFiles.__init__, SF.BaseFiles.normalize_dir_path, SF.BaseFiles.ensure_absolute_path, SF.BaseFiles.check_path_is_file,
@@ -69,7 +72,7 @@ class StatResult:
     st_ctime = 1700000000.0
 
     def __init__(self, kind):
-        self.st_mode = (_stat.S_IFREG | 0o644) if kind == "f" else (_stat.S_IFDIR | 0o755)
+        self.st_mode = (_stat.S_IFREG | 0o644) if kind == "f" else (_stat.S_IFSOCK | 0o755) if kind == "s" else (_stat.S_IFDIR | 0o755)
         self.kind = kind
 
 
@@ -102,13 +105,14 @@ class OsShim:
         while len(q) > 1 and q.endswith("/"):
             q = q[:-1]
             must_dir = True
+        q = sympath.realpath(q) if len(q) > 1 else q  # stat() follows symbolic links in every component
         for key, kind in TREE.items():
             if q == key:
                 if must_dir and kind != "d":
                     raise NotADirectoryError(20, "Not a directory")
                 return StatResult(kind)
         for key, kind in TREE.items():
-            if kind == "f" and q.startswith(key + "/"):
+            if kind in ("f", "s") and q.startswith(key + "/"):
                 raise NotADirectoryError(20, "Not a directory")
         raise FileNotFoundError(2, "No such file or directory")
 
@@ -249,6 +253,8 @@ def lookup(stack) -> Optional[str]:
     for key, kind in TREE.items():
         ks = [s for s in key.split("/") if s]
         if len(ks) == len(stack) and all(a == b for a, b in zip(stack, ks)):
+            if kind.startswith("l:"):  # the entry is whatever the link points to
+                return kind[2:], TREE[kind[2:]]
             return key, kind
     return None, None
 
@@ -403,6 +409,16 @@ def real_tree():
             p = base + key[len("/srv"):]
             if kind == "d":
                 _os.makedirs(p, exist_ok=True)
+            elif kind.startswith("l:"):
+                _os.makedirs(_os.path.dirname(p), exist_ok=True)
+                _os.makedirs(base + kind[2:][len("/srv"):], exist_ok=True)
+                _os.symlink(base + kind[2:][len("/srv"):], p)
+            elif kind == "s":
+                import socket
+                _os.makedirs(_os.path.dirname(p), exist_ok=True)
+                sk = socket.socket(socket.AF_UNIX)
+                sk.bind(p)
+                sk.close()
             else:
                 _os.makedirs(_os.path.dirname(p), exist_ok=True)
                 with open(p, "w") as f:
@@ -428,6 +444,8 @@ def py_expected(app_kind: str, path: str, base: str):
         return ("404", None)
     key = "/" + "/".join(stack)
     kind = TREE.get(key)
+    if kind and kind.startswith("l:"):
+        key, kind = kind[2:], TREE[kind[2:]]
     trailing = path.endswith("/")
     if app_kind == "files":
         if kind == "f":
